@@ -15,16 +15,16 @@ import (
 // Generated histories in virtual time: 1-4 episodes of concurrent traffic, each with a failure and a redial plan.
 
 type episode struct {
-	Msgs     int        `json:"msgs_per_writer"`
-	Feed     []string   `json:"-"`
-	NFeed    int        `json:"peer_messages"`
-	NPing    int        `json:"peer_pings"`
-	Fault    string     `json:"fault"` // none, read-error, write-error
-	At       int        `json:"fault_after_k"`
-	Steps    []dialStep `json:"redial_steps,omitempty"`
+	Msgs     int           `json:"msgs_per_writer"`
+	Feed     []string      `json:"-"`
+	NFeed    int           `json:"peer_messages"`
+	NPing    int           `json:"peer_pings"`
+	Fault    string        `json:"fault"` // none, read-error, write-error
+	At       int           `json:"fault_after_k"`
+	Steps    []dialStep    `json:"redial_steps,omitempty"`
 	Notice   time.Duration `json:"close_notice,omitempty"`
-	Slow     bool       `json:"slow_redial"`
-	CloseMid bool       `json:"close_mid_burst,omitempty"`
+	Slow     bool          `json:"slow_redial"`
+	CloseMid bool          `json:"close_mid_burst,omitempty"`
 	CloseOff time.Duration `json:"close_offset,omitempty"`
 }
 
@@ -42,14 +42,17 @@ type randCase struct {
 
 func pick[T any](r *rand.Rand, xs ...T) T { return xs[r.Intn(len(xs))] }
 
-func genRand(r *rand.Rand, thorough bool) randCase {
+func genRand(r *rand.Rand, closeMid bool) randCase {
 	rc := randCase{}
 	rc.Cfg = sessCfg{Budget: pick(r, 1, 2, 5), Interval: pick(r, time.Millisecond, 50*time.Millisecond, time.Second, 0), GivenTID: r.Intn(3) != 0}
 	if r.Intn(7) == 0 && rc.Cfg.Budget > 1 {
 		rc.Cfg.InitFails = 1 + r.Intn(rc.Cfg.Budget-1)
 	}
 	rc.Writers = 1 + r.Intn(16)
-	rc.Ending = pick(r, "live", "live", "live", "close-boundary", "close-mid", "close-mid", "exhaust-forever", "exhaust-forever", "exhaust-recover")
+	rc.Ending = pick(r, "live", "live", "live", "close-boundary", "close-boundary", "exhaust-forever", "exhaust-forever", "exhaust-recover")
+	if closeMid {
+		rc.Ending = "close-mid"
+	}
 	ne := 1 + r.Intn(4)
 	nd := 0
 	for e := 0; e < ne; e++ {
@@ -110,9 +113,12 @@ func genRand(r *rand.Rand, thorough bool) randCase {
 			}
 		}
 		if len(ok) == 0 {
-			rc.Ending = "close-boundary"
-			rc.CloseAt = ne
-		} else {
+			// make the last episode's redial immediate
+			ep := &rc.Episodes[ne-1]
+			ep.Steps, ep.Slow, ep.Notice, ep.At = []dialStep{{}}, false, 0, 0
+			ok = append(ok, ne-1)
+		}
+		{
 			i := pick(r, ok...)
 			rc.Episodes[i].CloseMid = true
 			rc.Episodes[i].CloseOff = time.Duration(r.Intn(1+rc.Episodes[i].Msgs*2000)) * time.Microsecond
@@ -137,16 +143,33 @@ func genRand(r *rand.Rand, thorough bool) randCase {
 
 func TestC18Random(t *testing.T) {
 	e := vrun.LoadEnv()
-	meta := vrun.Meta{Property: "C18", Workload: "TestC18Random", Total: e.Pick(1500, 20000),
+	meta := vrun.Meta{Property: "C18", Workload: "TestC18Random", Total: e.Pick(4000, 150000),
 		Rule: "Each case draws from the case PRNG: budget {1,2,5}, ReconnectInterval {1ms,50ms,1s,default}, 0-(budget-1) failing initial dials, 1-16 concurrent writers with tagged " +
 			"messages, 1-4 episodes of concurrent traffic (1-6 messages per writer with 0-2 ms virtual gaps, 0-8 peer messages of which ~30% pings), each episode with a failure " +
 			"{none, underlying read error, underlying write error} at a random point of the burst and a redial plan {immediate | 1-3 dial/handshake errors below the budget | dial latency}; " +
-			"ending {stay live, Close between episodes, Close in mid-burst, budget exhausted with the dialer failing forever, budget exhausted then dialer recovers} with 1-16 writers " +
+			"ending {stay live, Close between episodes, budget exhausted with the dialer failing forever, budget exhausted then dialer recovers} with 1-16 writers " +
 			"writing concurrently into the exhaustion. Redials that sleep are injected at a quiescent point (see assumptions). Non-trivial: at least one redial or a Close, and accepted writes. " +
 			"Distinct: the generated scenario (writers, budget, interval, per-episode fault/plan/position, ending).",
 		Assumptions: vtAssumptions}
 	vrun.Loop(t, meta, 0, func(c *vrun.Case) vrun.Result {
-		rc := genRand(c.Rng, e.Thorough())
+		rc := genRand(c.Rng, false)
+		seed := c.Rng.Int63()
+		return runBubble(c.T, func() vrun.Result { return runRand(rc, seed) })
+	})
+}
+
+// TestC18CloseMidBurst is the same generator with the ending fixed to "Close in the middle of a burst of concurrent
+// writes". It is a workload of its own because on the unchanged tree this input class can kill the process (writeLoop
+// reads the result-channel map without its lock while writers mutate it: "concurrent map read and map write").
+func TestC18CloseMidBurst(t *testing.T) {
+	e := vrun.LoadEnv()
+	meta := vrun.Meta{Property: "C18", Workload: "TestC18CloseMidBurst", Total: e.Pick(1200, 30000),
+		Rule: "Generator of TestC18Random with the ending fixed: Close is called at a random virtual offset inside a burst of 1-16 concurrent writers (episodes before it as in TestC18Random; " +
+			"the redial of the burst that is closed, if any, is immediate). Pending and later calls must fail within the virtual bound, oracles 1-4 apply to the prefix. " +
+			"Non-trivial: Close ran and writes were accepted. Distinct: the generated scenario.",
+		Assumptions: vtAssumptions}
+	vrun.Loop(t, meta, 0, func(c *vrun.Case) vrun.Result {
+		rc := genRand(c.Rng, true)
 		seed := c.Rng.Int63()
 		return runBubble(c.T, func() vrun.Result { return runRand(rc, seed) })
 	})
